@@ -61,6 +61,12 @@ MENU = {
     'title': art('t', pre='\\title{T}\\author{A}') .replace('\\section{S}', '\\maketitle\\section{S}'),
     'catcode': art('\\catcode`\\@=11\\relax \\def\\zz@a{k}\\zz@a \\catcode`\\~=12\\relax a~b'),
     'notclass': 'just text $a$ \\parskip=1pt\\relax',
+    'ifx': art('\\def\\zza{xy}\\def\\zzb{xy}\\def\\zzc{}\\ifx\\zza\\zzb sa\\else da\\fi \\ifx\\zza\\zzc sb\\else db\\fi'),
+    'newreg': art('\\newcount\\zzn \\zzn=5\\relax \\ifnum\\zzn=5 five\\else notfive\\fi \\newdimen\\zzd \\zzd=5pt\\relax '
+                  '\\ifdim\\zzd>4pt big\\else small\\fi'),
+    'eqnstar': art('\\begin{eqnarray*}a&=&b\\\\ c&=&d\\end{eqnarray*}'),
+    'eqn': art('\\begin{eqnarray}a&=&b\\label{r1}\\\\ c&=&d\\\\ e&=&f\\end{eqnarray}\\begin{equation}g\\label{r2}\\end{equation}\\ref{r1}\\ref{r2}'),
+    'inlinemath': art('u \\(a+b\\) v \\(c\\) w'),
 }
 RENDER = ('plain', 'book', 'artindex')
 
